@@ -84,9 +84,9 @@ class Entry:
     __slots__ = ("adr", "stored", "declared", "pmac", "desc", "emac", "raw", "index", "payload")
 
 
-def parse_body(buf, pos, key=None, check_mac=True):
-    """strict parser/validator of a body starting at absolute position pos of buf.
-    Returns list of Entry (with payload filled).  Raises LayoutError(rule)."""
+def parse_body(buf, pos, key=None, check_mac=True, base=0):
+    """strict parser/validator of a body starting at position pos of buf.  base = absolute file offset of buf[0] (the
+    addresses in the directory are absolute file offsets).  Returns list of Entry (with payload filled).  Raises LayoutError(rule)."""
     n = len(buf)
     if pos + 4 > n:
         raise LayoutError("dirsize_field_truncated")
@@ -147,8 +147,8 @@ def parse_body(buf, pos, key=None, check_mac=True):
     if p != dend:
         raise LayoutError("bytes_after_sentinel_in_directory")
     for e in entries:
-        if e.adr != p:
-            raise LayoutError("address_not_absolute_contiguous", "entry %d adr %d, position %d" % (e.index, e.adr, p))
+        if e.adr != base + p:
+            raise LayoutError("address_not_absolute_contiguous", "entry %d adr %d, position %d" % (e.index, e.adr, base + p))
         if p + e.stored > n:
             raise LayoutError("payload_truncated")
         e.payload = bytes(buf[p : p + e.stored])
